@@ -777,6 +777,22 @@ func (m *cfgModel) runesTrue(e ast.Expr, depth int) map[rune]bool {
 			switch fn.Name() {
 			case "ContainsAny", "ContainsRune":
 				add(m.constRunes(x.Args[1]))
+			case "ContainsFunc":
+				// strings.ContainsFunc(s, pred): some rune of s satisfies the package predicate
+				var pf *types.Func
+				switch a := ast.Unparen(x.Args[1]).(type) {
+				case *ast.Ident:
+					pf, _ = m.info.Uses[a].(*types.Func)
+				case *ast.SelectorExpr:
+					pf, _ = m.info.Uses[a.Sel].(*types.Func)
+				}
+				if pf != nil {
+					if fd := m.decls[pf]; fd != nil {
+						if set, ok := m.boolFuncRuneSetRec(fd, true, depth+1); ok {
+							add(set)
+						}
+					}
+				}
 			}
 			return out
 		}
